@@ -542,6 +542,46 @@ def g4(rng):
     return case
 
 
+def g4b(rng):
+    """convolution with two inputs sharing the affine access, shape + occupancy partitioning of the output rank
+    (leader: one of the inputs), input rank following"""
+    a = rng.choice([1, 1, 2])
+    b = rng.choice([1, 1, 2])
+    Q, S, W = rng.choice([("Q", "S", "W"), ("P", "R", "H")])
+    Qx, Sx = rng.randint(2, 8), rng.randint(1, 3)
+    Wx = a * (Qx - 1) + b * (Sx - 1) + 1
+    widx = [(a, Q.lower()), (b, S.lower())]
+    decl = {"I": [W], "J": [W], "F": [S], "O": [Q]}
+    fs = [("t", "I", [widx]), ("t", "J", [widx]), ("t", "F", [V(S)])]
+    rng.shuffle(fs)
+    e = dict(out="O", oidx=[V(Q)], terms=[dict(kind="times", factors=fs, sel=None)])
+    case = dict(decl=decl, eins=[e], mapping={}, ext={Q: Qx, S: Sx, W: Wx}, env={}, tags=["conv2in", "a%d" % a, "b%d" % b])
+    leader = rng.choice(["I", "J"])
+    s1 = rng.randint(2, 8)
+    occ = rng.randint(1, 4)
+    variant = rng.choice(["shape_occ", "shape_occ", "occ", "shape"])
+    if variant == "shape_occ":
+        stack = ["uniform_shape(%d)" % s1, "uniform_occupancy(%s.%d)" % (leader, occ)]
+        loops = [[Q + "2", Q + "1", S, Q + "0"], [Q + "2", Q + "1", Q + "0", S], None]
+    elif variant == "occ":
+        stack = ["uniform_occupancy(%s.%d)" % (leader, occ)]
+        loops = [[Q + "1", S, Q + "0"], [Q + "1", Q + "0", S], None]
+    else:
+        stack = ["uniform_shape(%d)" % s1]
+        loops = [[Q + "1", S, Q + "0"], [Q + "1", Q + "0", S], [Q + "1", W + "0", Q + "0"], None]
+    case["mapping"]["partitioning"] = {"O": {Q: stack, W: ["follow(%s)" % Q]}}
+    case["tags"].append("g4b:" + variant)
+    sizes = [int(x[x.index("(") + 1:-1]) for x in stack if x.startswith("uniform_shape")]
+    for i, sz in enumerate(reversed(sizes)):
+        lvl = i + (len(stack) - len(sizes))
+        case["env"][Q + str(lvl)] = sz
+        case["env"][W + str(lvl)] = a * sz
+    loop = rng.choice(loops)
+    if loop is not None:
+        case["mapping"]["loop-order"] = {"O": loop}
+    return case
+
+
 # ------------------------------------------------------------------------------------------ G5: cascades
 
 def g5(rng):
